@@ -1190,6 +1190,9 @@ pub fn normalise(tl: &[Value]) -> Vec<Value> {
                 o.remove("max");
                 // C: message of an unclassified error; Rust: panic message
                 o.remove("msg");
+                // the messages are compared separately (TraceCApi!MsgOk)
+                o.remove("emsg");
+                o.remove("cmsg");
             }
             Some("new") => {
                 // Rust: "err:selector:<Debug>" / "err:encoding"; C: "err:selector" / "err:encoding"
